@@ -35,6 +35,8 @@ VARIABLES l, bad, nbad, ntr,
 tvars == <<kv, dur, ck, st, hist, last, l, bad, nbad, ntr, store, needs, durRoot, ckRoot, written, batch, dirty, seen, roots, dev, emptyId, mode>>
 
 MaxBad == 40
+\* deviations are kept per class (operation, failed checks, deviation flags): a flood of one class never hides another
+KeepBad(bd, op, fl, dv) == Cardinality({b \in bd : b[3] = op /\ b[4] = fl /\ b[5] = dv}) < 6 /\ Cardinality(bd) < 40 * MaxBad
 ToSet(s) == {s[i] : i \in DOMAIN s}
 Flag(cond, name) == IF cond THEN {} ELSE {name}
 EmptyFn == [x \in {} |-> {}]
@@ -136,7 +138,7 @@ Step(e) ==
     [] OTHER -> [Base EXCEPT !.f = {"unknown-op"}]
 
 TraceInit ==
-  /\ kv = EmptyKV /\ dur = EmptyKV /\ ck = EmptyKV /\ st = [clean |-> TRUE, saved |-> FALSE, commits |-> 0]
+  /\ kv = EmptyKV /\ dur = EmptyKV /\ ck = EmptyKV /\ st = [clean |-> TRUE, saved |-> FALSE, commits |-> 0, gcs |-> 0]
   /\ hist = <<>> /\ last = "init"
   /\ l = 1 /\ bad = {} /\ nbad = 0 /\ ntr = 0
   /\ store = {} /\ needs = EmptyFn /\ durRoot = 0 /\ ckRoot = 0 /\ written = {} /\ batch = {} /\ dirty = FALSE
@@ -154,7 +156,7 @@ TraceNext ==
          /\ l' = l + 1
          /\ ntr' = IF e.op = "reset" THEN ntr + 1 ELSE ntr
          /\ nbad' = IF f = {} THEN nbad ELSE nbad + 1
-         /\ bad' = IF f = {} \/ Cardinality(bad) >= MaxBad THEN bad ELSE bad \cup {<<e.tid, l, e.op, f, r.dev>>}
+         /\ bad' = IF f = {} \/ ~KeepBad(bad, e.op, f, r.dev) THEN bad ELSE bad \cup {<<e.tid, l, e.op, f, r.dev>>}
 
 TraceSpec == TraceInit /\ [][TraceNext]_tvars
 Report == l <= Len(Trace) \/ PrintT(<<"VERIF_RESULT", l - 1, ntr, nbad, bad>>)
